@@ -3,9 +3,11 @@ package checks
 import (
 	"fmt"
 	"os"
+	"path/filepath"
 	"runtime"
 	"testing"
 	"time"
+	"verif/sim/wl"
 
 	"verif/sim/sim"
 )
@@ -13,7 +15,30 @@ import (
 // TestMain starts the out-of-bubble watchdog: real time is used only to notice
 // a hang (a goroutine spinning in repo code never parks, so synctest.Wait never
 // returns), never to decide a schedule.
+// plantForeignRoot makes the process's "host trust store" consist of the PKI's foreign CA only: hosts trust many CAs
+// that are not the one configured for client certificates, and the server must not take them for it.
+func plantForeignRoot() {
+	base := ""
+	if out := os.Getenv("VERIF_OUT"); out != "" {
+		base = filepath.Dir(out)
+	}
+	dir, err := os.MkdirTemp(base, "verif-roots-*")
+	if err != nil {
+		return
+	}
+	empty := filepath.Join(dir, "certs.d")
+	os.Mkdir(empty, 0o755)
+	file := filepath.Join(dir, "roots.pem")
+	if os.WriteFile(file, wl.GetPKI().ForeignCA.CertPEM, 0o600) == nil {
+		os.Setenv("SSL_CERT_FILE", file)
+		os.Setenv("SSL_CERT_DIR", empty)
+	}
+}
+
 func TestMain(m *testing.M) {
+	if os.Getenv("VERIF_PROP") != "" {
+		plantForeignRoot()
+	}
 	limit := time.Duration(envInt("VERIF_WATCHDOG_S", 20)) * time.Second
 	go func() {
 		last := sim.Progress.Load()
